@@ -341,7 +341,7 @@ pub fn run(cx: &mut Ctx) {
         });
     }
     // ---- random payloads on random shapes
-    let n = cx.a.n(300, 30_000);
+    let n = cx.a.n(4_000, 100_000);
     for _ in 0..n {
         cx.case("random_payloads", |c| {
             let mut rng = c.rng.clone();
